@@ -2,6 +2,8 @@ import Model.TlsAuth
 import Model.TlsAuthSess
 import Proofs.C20Lemmas
 import Proofs.C20Sess
+import Model.TlsAuthDial
+import Proofs.C20Dial
 /-!
 # C20 — TLS verification and credential disclosure are exactly as documented (property theorems)
 
@@ -670,5 +672,215 @@ theorem C20_pinned_same_without_provider (st : Option AuthImpl) (ds : List Dial)
       cases d.via <;> rfl
     simp only [session, sessRun, h1, h2]
     exact congrArg _ ih
+
+/-! ## every dialer configuration: HostDialer / Dialer / defaults × SslOpts; several dials, one shared tls.Config -/
+
+/-- the acceptance decision of a dial through the derived config is the specification's `mayProceed` -/
+theorem accepts_eq_mayProceed (o : SslOpts) (t : OutCfg) (hs : setupTLSConfig o = .ok t) (name port : List UInt8)
+    (cert : ServerCert) (hp : colon ∉ port) :
+    tlsAccepts t.insecure (rootsTrust o cert.signer)
+      (tlsConfigForAddr t.insecure t.serverName (joinHostPort name port)).1 cert = Spec.mayProceed o name cert := by
+  by_cases ha : tlsAccepts t.insecure (rootsTrust o cert.signer)
+      (tlsConfigForAddr t.insecure t.serverName (joinHostPort name port)).1 cert = true
+  · have h : dialTLS o name port cert none [] =
+        .ok ⟨(tlsConfigForAddr t.insecure t.serverName (joinHostPort name port)).1, true, handshake none []⟩ := by
+      simp [dialTLS, hs, ha]
+    have := (C20_credentials_only_after_verification _ _ _ _ _ _ _ hp h).1
+    rw [ha]; exact this
+  · have h : dialTLS o name port cert none [] =
+        .ok ⟨(tlsConfigForAddr t.insecure t.serverName (joinHostPort name port)).1, false, .stop .errTlsVerify⟩ := by
+      simp [dialTLS, hs, ha]
+    have := (C20_credentials_only_after_verification _ _ _ _ _ _ _ hp h).1
+    rw [Bool.not_eq_true] at ha
+    rw [ha]; exact this
+
+/-- the name handed to crypto/tls when the documented table says "verify" -/
+theorem serverName_when_verifying (o : SslOpts) (t : OutCfg) (hs : setupTLSConfig o = .ok t) (name port : List UInt8)
+    (hp : colon ∉ port) (hv : Spec.mustVerify o = true) :
+    (tlsConfigForAddr t.insecure t.serverName (joinHostPort name port)).1 = Spec.expectedName o name := by
+  obtain ⟨h1, h2, -⟩ := C20_setup_follows_table o t hs
+  have hi : t.insecure = false := by
+    have : Spec.mustVerify o = !t.insecure := by simp [Spec.mustVerify, h1]
+    rw [this] at hv
+    simpa using hv
+  simp only [Spec.expectedName, ← h2]
+  by_cases he : t.serverName = []
+  · rw [(C20_server_name t.insecure t.serverName _).1 hi he, he]
+    simp [C20_server_name_of_host name port hp]
+  · rw [(C20_server_name t.insecure t.serverName _).2 (Or.inr he)]
+    simp [he]
+
+/-- EVERY DIALER.  For every cluster configuration (HostDialer set or not, Dialer set or not, SslOpts absent or any
+    options and files), every host (hostname or none, IPv4 / IPv6 connect address, any port text without a colon),
+    every certificate the node presents:
+    (1) the `Dialer` field never changes what is dialled or how it is wrapped (a caller's TCP dialer cannot switch
+        TLS off);
+    (2) a caller's `HostDialer` is the only thing called — SslOpts (and its files) are not even looked at
+        (documented: "SslOpts is ignored if HostDialer is set");
+    (3) otherwise bad CA / key-pair files are an error before anything is dialled;
+    (4) otherwise the TCP dial goes to the CONNECT ADDRESS (never the hostname), and what the node sees and the caller
+        gets is `Spec.dialDemand`: with SslOpts a TLS handshake is started on EVERY connection and the connection is
+        handed on exactly when `Spec.mayProceed` (documented table, expected name = ServerName else the host's
+        name, the CAs the client was given); without SslOpts the connection is plain and coalescing stays allowed;
+        when verifying, the ServerName handed to crypto/tls is the expected name; a node the caller's own verification
+        callback rejects is never handed on when the caller supplied a Config (the derived config still carries it). -/
+theorem C20_every_dialer (c : DialCfg) (d : DialTry) :
+    (∀ b, dialHost { c with dialer := b } d = dialHost c d) ∧
+    (c.hostDialer = true → dialHost c d = .ok ⟨none, none, .caller⟩) ∧
+    (∀ o e, c.hostDialer = false → c.ssl = some o → setupTLSConfig o = .error e → dialHost c d = .error e) ∧
+    (∀ ip obs, c.hostDialer = false → d.host.ip = some ip → d.host.port ≠ [48] → colon ∉ d.host.port →
+      d.dialOk = true → dialHost c d = .ok obs →
+        obs.tcp = some (joinHostPort ip d.host.port) ∧
+        obs.demand = Spec.dialDemand c.ssl d.host.name d.cert d.veto ∧
+        (c.ssl = none → obs.res = .plain) ∧
+        (∀ o, c.ssl = some o → obs.res ≠ .plain ∧
+          (Spec.mustVerify o = true → obs.serverName = some (Spec.expectedName o d.host.name)))) := by
+  refine ⟨?_, ?_, ?_, ?_⟩
+  · intro b
+    simp only [dialHost, connConfig_dialer c b]
+    cases connConfig c with
+    | error e => rfl
+    | ok k => cases k <;> rfl
+  · intro h
+    simp [dialHost, connConfig, h]
+  · intro o e hh hs he
+    simp [dialHost, connConfig, hh, hs, he]
+  · intro ip obs hh hip hport hp hok h
+    obtain ⟨hd, dl, ssl⟩ := c
+    simp only at hh
+    subst hh
+    cases ssl with
+    | none =>
+      simp only [dialHost, connConfig, Bool.false_eq_true, if_false, dialDefault, hip, hport, hok, Bool.not_true,
+        Except.ok.injEq] at h
+      subst h
+      exact ⟨rfl, rfl, fun _ => rfl, fun o ho => by cases ho⟩
+    | some o =>
+      cases hs : setupTLSConfig o with
+      | error e => simp [dialHost, connConfig, hs] at h
+      | ok t =>
+        have hacc := accepts_eq_mayProceed o t hs d.host.name d.host.port d.cert hp
+        simp only [dialHost, connConfig, Bool.false_eq_true, if_false, hs, dialDefault, hip, hport, hok, Bool.not_true,
+          wrapCode, trustOf, cbOf, hacc, Except.ok.injEq] at h
+        subst h
+        refine ⟨rfl, ?_, (fun h => by cases h), ?_⟩
+        · cases hm : Spec.mayProceed o d.host.name d.cert <;> cases hc : o.cfg <;> cases hv : d.veto <;>
+            simp [DialObs.demand, Spec.dialDemand, hm, hc, hv]
+        · intro o' ho'
+          cases ho'
+          refine ⟨?_, fun hv => ?_⟩
+          · cases hm : Spec.mayProceed o d.host.name d.cert <;> cases hc : o.cfg <;> cases hv : d.veto <;> simp [hc, hv]
+          · simp only [serverName_when_verifying o t hs d.host.name d.host.port hp hv]
+
+/-- non-vacuity: the caller's own Dialer, host verification on, CA given: node b presenting node a's certificate is
+    refused after a TLS handshake was started; the TCP dial went to the address, the name checked is the host's -/
+example : (dialHost ⟨false, true, some ⟨none, true, .valid, .absent, .absent⟩⟩
+    ⟨⟨strBytes "b", some (strBytes "10.0.0.2"), strBytes "9042"⟩, true, ⟨[strBytes "a"], .fileCA⟩, false⟩).toOption =
+    some ⟨some (strBytes "10.0.0.2:9042"), some (strBytes "b"), .errTls⟩ := by decide
+example : (dialHost ⟨false, false, none⟩
+    ⟨⟨strBytes "b", some (strBytes "::1"), strBytes "9042"⟩, true, ⟨[], .rogue⟩, false⟩).toOption =
+    some ⟨some (strBytes "[::1]:9042"), none, .plain⟩ := by decide
+
+/-- non-vacuity: the caller's Config (InsecureSkipVerify even) with a callback that rejects the node: refused -/
+example : (dialHost ⟨false, false, some ⟨some ⟨true, [], false, 0⟩, false, .absent, .absent, .absent⟩⟩
+    ⟨⟨strBytes "b", some (strBytes "10.0.0.2"), strBytes "9042"⟩, true, ⟨[strBytes "b"], .rogue⟩, true⟩).toOption.map (·.res) =
+    some .errTls := by decide
+
+/-- SEVERAL DIALS, ONE SHARED tls.Config.  For every configuration and every sequence of dials of one session's
+    dialer (any hosts in any order, re-dials, failing TCP dials, hosts without address or port in between):
+    (1) the i-th dial is what ONE dial of that host with that configuration gives (`dialHost`): no server name, no
+        verification setting is carried over from the dials made before it;
+    (2) the dialer's `*tls.Config` is the same after the dials as before (`tlsConfigForAddr` writes to a clone);
+    (3) hence, for the dials that reach a node, what every node sees and every caller gets is `Spec.dialDemand` of
+        THAT host — a function of (configuration, host, certificate).  (This makes the op `dialsec` spec-backed.) -/
+theorem C20_tls_per_dial (c : DialCfg) (ds : List DialTry) (obs : List DialObs) (h : dialAll c ds = .ok obs) :
+    obs.length = ds.length ∧
+    (∀ i (hi : i < ds.length) (hj : i < obs.length), dialHost c ds[i] = .ok obs[i]) ∧
+    (∀ b tls, connConfig c = .ok (.dflt b tls) → dialFinal wrapCode (trustOf c) (cbOf c) tls ds = tls) ∧
+    (c.hostDialer = false →
+      (∀ d ∈ ds, d.host.ip.isSome = true ∧ d.host.port ≠ [48] ∧ colon ∉ d.host.port ∧ d.dialOk = true) →
+      obs.map DialObs.demand = ds.map (fun d => Spec.dialDemand c.ssl d.host.name d.cert d.veto)) := by
+  have key : obs.length = ds.length ∧
+      (∀ i (hi : i < ds.length) (hj : i < obs.length), dialHost c ds[i] = .ok obs[i]) := by
+    simp only [dialAll] at h
+    cases hc : connConfig c with
+    | error e => rw [hc] at h; cases h
+    | ok k =>
+      rw [hc] at h
+      cases k with
+      | caller =>
+        simp only [Except.ok.injEq] at h
+        subst h
+        exact ⟨by simp, fun i hi hj => by simp [dialHost, hc]⟩
+      | dflt b tls =>
+        simp only [Except.ok.injEq] at h
+        subst h
+        rw [(dialSeq_readonly wrapCode wrapCode_readonly (trustOf c) (cbOf c) tls ds).1]
+        exact ⟨by simp, fun i hi hj => by simp [dialHost, hc]⟩
+  refine ⟨key.1, key.2, ?_, ?_⟩
+  · intro b tls _
+    exact (dialSeq_readonly wrapCode wrapCode_readonly (trustOf c) (cbOf c) tls ds).2
+  · intro hh hv
+    apply List.ext_getElem
+    · simp [key.1]
+    · intro i h1 h2
+      simp only [List.length_map] at h1 h2
+      simp only [List.getElem_map]
+      have hd := hv ds[i] (List.getElem_mem h2)
+      obtain ⟨ip, hip⟩ := Option.isSome_iff_exists.mp hd.1
+      exact ((C20_every_dialer c ds[i]).2.2.2 ip obs[i] hh hip hd.2.1 hd.2.2.1 hd.2.2.2 (key.2 i h2 h1)).2.1
+
+/-- COUNTEREXAMPLE for the pinned variant (`wrapPinned`: the server name is filled in on the dialer's shared config
+    instead of a per-dial clone): no SslOptions.Config, host verification on, CA given; host "a" is dialled first,
+    then host "b", whose node presents a certificate valid for "a" only (signed by the same CA — e.g. node a's own
+    certificate on another machine).  The pinned variant checks the second node against the name "a" and ACCEPTS
+    it; the code that exists checks it against "b" and refuses, as `Spec.dialDemand` demands. -/
+theorem C20_cex_pinned_server_name :
+    let o : SslOpts := ⟨none, true, .valid, .absent, .absent⟩
+    let c : DialCfg := ⟨false, false, some o⟩
+    let certA : ServerCert := ⟨[strBytes "a"], .fileCA⟩
+    let da : DialTry := ⟨⟨strBytes "a", some (strBytes "10.0.0.1"), strBytes "9042"⟩, true, certA, false⟩
+    let db : DialTry := ⟨⟨strBytes "b", some (strBytes "10.0.0.2"), strBytes "9042"⟩, true, certA, false⟩
+    (dialSeq wrapPinned (trustOf c) (cbOf c) (some ⟨false, [], true, 0, false⟩) [da, db]).map (·.res) = [.tls, .tls] ∧
+    (dialAll c [da, db]).toOption.map (·.map (·.res)) = some [.tls, .errTls] ∧
+    [Spec.dialDemand c.ssl da.host.name da.cert false, Spec.dialDemand c.ssl db.host.name db.cert false] =
+      [⟨true, true⟩, ⟨true, false⟩] ∧
+    (dialAll c [db, da]).toOption.map (·.map (·.res)) = some [.errTls, .tls] := by
+  decide
+
+
+/-! ## the credentials influence nothing but the token -/
+
+/-- NON-INTERFERENCE.  Two password authenticators with the same allow-list but ANY user names and passwords give,
+    for every server frame sequence, the same connection attempt up to the bytes of the PLAIN token: the same
+    requests in the same order, the same calls, the same outcome.  So nothing the driver reports about an attempt —
+    the error it returns, the lines its logger prints (all of them functions of the outcome and of what the SERVER
+    sent) — can depend on the user name or the password; the only place they go is the AUTH_RESPONSE body. -/
+theorem C20_credentials_noninterference (p p' : PwAuth) (ha : p.allowed = p'.allowed) (fs : List SFrame) :
+    (handshake (some (.pw p)) fs).redact = (handshake (some (.pw p')) fs).redact := by
+  rcases fs with _ | ⟨f, fs⟩
+  · rfl
+  · cases f <;> try rfl
+    rcases fs with _ | ⟨g, gs⟩
+    · rfl
+    · cases g <;> try rfl
+      rename_i cls
+      simp only [handshake, afterStartup, AuthImpl.challenge, challenge, ha]
+      by_cases h : approve cls p'.allowed = true <;> simp [h, Trace.redact, Trace.pre, Sent.redact]
+
+/-- … and so for every sequence of connections of a session (pool / control, any hosts, any order) -/
+theorem C20_session_noninterference (p p' : PwAuth) (ha : p.allowed = p'.allowed) (ds : List Dial) :
+    (session ⟨some (.pw p), none⟩ ds).map Trace.redact = (session ⟨some (.pw p'), none⟩ ds).map Trace.redact := by
+  rw [(C20_auth_per_host _ ds).1, (C20_auth_per_host _ ds).1, List.map_map, List.map_map]
+  apply List.map_congr_left
+  intro d _
+  exact C20_credentials_noninterference p p' ha d.fs
+
+/-- non-vacuity: the tokens themselves do differ -/
+example : handshake (some (.pw ⟨[97], [49], []⟩))
+      [.supported, .authenticate (strBytes "org.apache.cassandra.auth.PasswordAuthenticator"), .authSuccess []] ≠
+    handshake (some (.pw ⟨[98], [50], []⟩))
+      [.supported, .authenticate (strBytes "org.apache.cassandra.auth.PasswordAuthenticator"), .authSuccess []] := by decide
+
 
 end C20
